@@ -155,6 +155,9 @@ func c07SameBuffer(c *RunCtx, g *Gen) {
 	t := c.T
 	n := 1 + t.Intn(8)
 	lead := []int{0, 0, 1, 7, 64, 300}[t.Intn(6)]
+	if t.Chance(1, 16) {
+		lead = 65530 + t.Intn(70000) // read offsets beyond what 16 bits can index
+	}
 	var wire bytes.Buffer
 	wire.Write(noise(t, lead))
 	var sents []*sent
